@@ -5,6 +5,21 @@ HERE = os.path.dirname(os.path.dirname(os.path.abspath(__file__)))
 
 # id -> (monitor, level, technique, level text, level note, design ref)
 CHECKS = {
+ "C12": ("climon", "exploration",
+         "runtime monitor: digests of the constraint system from every construction path, repeated/concurrent/fresh-process runs compared with each other",
+         "For each dimension the SHA-256 of the constraint system from BuildR1CS*, Setup*, Import*Setup, 8 concurrent compilations, fresh r1cs processes under several GOMAXPROCS and the cs section of setup/import-setup keys files must all be equal (no pinned constant); interleaved multi-/single-block compile sequences; public wires [1, InputHash]; Solidity uint256[1]; depth-32 deletion refused on every path incl. import; thorough runs the monitor under -race. Held on the runs made.",
+         "Schedules are those the OS produced; digest of WriteTo identifies the system.",
+         "DESIGN.md §C12"),
+ "C17": ("climon", "exploration",
+         "runtime monitor: extraction output (in-process repeated, fresh processes) compared byte-wise and per definition with the committed Lean model",
+         "ExtractLean(30,4) three times in one process and extract-circuit in fresh processes under GOMAXPROCS 1/4/16 must equal formal-verification/FormalVerification.lean (54 definitions compared individually); all SemaphoreMTB names used by the proof files must be defined; a sweep revisiting dimensions must be deterministic. The Lean proofs are not rebuilt (toolchain absent).",
+         "Model text equality, not proof re-checking.",
+         "DESIGN.md §C17"),
+ "C19": ("climon", "exploration",
+         "runtime monitor: real binary in fresh processes; stdout/exit-status oracle from in-monitor Groth16 verification",
+         "setup -> gen-test-params | prove -> verify on real keys files; prove on independently written documents (short roots, four number styles) with stdout required to be exactly one proof; verify on CLI proofs, re-randomised valid derivatives (short coordinates first, hashes with odd hex length), tampered/reordered proofs, wrong hashes, other-mode keys, garbage; unprovable parameters; six mode spellings on six commands; missing/empty/truncated/directory keys. Held on the invocations made.",
+         "Verify oracle = gnark Verify with the vk from export-vk.",
+         "DESIGN.md §C19"),
  "C03": ("circmon", "exploration",
          "runtime monitor: full compiled circuits solved with chosen public inputs and forged bit-decomposition hints vs. independent on-chain packing + Keccak",
          "Full insertion/deletion circuits (one- and two-block hash inputs) are solved for valid batches with the keccak of the canonical packing (must accept) and with hashes of single-field perturbations, other valid batches, alternative encodings, and - with the decomposition hint replaced - of the forged bytes v+k*r for every admissible k (incl. v=0), other values and non-boolean digits (must all reject); the rejecting constraint is recorded. Public wires checked to be exactly [1, InputHash]. Held on the executions produced.",
